@@ -149,6 +149,20 @@ class FileProc:
         return self.p.returncode
 
 
+def panic_in_harness(stderr):
+    """Whose code panicked?  The first source frame below the runtime's panic(...) line of a Go panic dump: a frame in
+    the harness (verif_*_test.go overlays, internal/verifh) means the HARNESS crashed - exit 2, never a verdict."""
+    i = stderr.find("\npanic(")
+    if i < 0:
+        i = stderr.find("panic:")
+    frames = re.findall(r"\n\t(/\S+\.go):\d+", stderr[i:] if i >= 0 else stderr)
+    for f in frames:
+        if "/src/runtime/" in f or "/src/testing/" in f:
+            continue
+        return "verif_" in os.path.basename(f) or "/verifh/" in f
+    return False
+
+
 def run_harness(binary, env_extra, timeout=3600, cwd=None):
     env = go_env()
     env.update({k: str(v) for k, v in env_extra.items()})
